@@ -12,7 +12,7 @@ open Mkdb.Generated
 
 /-- **C13.all_bracketed**: according to the facts extracted from the current source, every
 statement evaluator takes the shared lock first and releases it last, the log append happens
-inside that bracket, CREATE TABLE changes pages under the shared lock, `flushPages` holds the
+inside that bracket, CREATE TABLE changes the catalog and flushes it as one section under the exclusive lock, `flushPages` holds the
 exclusive lock for its whole body, and the data file is written nowhere else; at start-up the
 flusher goroutine is started in one place only - as the last step of `fileStore.open`, after every
 read of the header (a flush rewrites the header from the fields `open` fills; a tick before that
